@@ -106,6 +106,7 @@ class C10(Campaign):
     fault_kinds = ["write of a valid value from inside a callback (before / after the engine's own write)",
                    "nested events (queued or depth-first) between the writes",
                    "external-write-valid", "external-write-falsy", "external-write-unmapped (setter)",
+                   "external-write-foreign-State-object (current_state = State(value=v), v mapped or not)",
                    "direct-model-write-unmapped", "storage-setter-raises@k", "falsy-model-object",
                    "falsy-start_value"]
     rule = ("one run = a generated machine whose state values are drawn from str, '', ints incl. 0 and "
@@ -207,6 +208,9 @@ class C10(Campaign):
               "observe_more": True, "value_kind": kind}
         if mk == "property" and rnd.random() < 0.5 and not eff:
             sc["storage_faults"] = {"A": sorted(rnd.sample(range(1, 12), rnd.randint(1, 2)))}
+        for o in sc["ops"]:
+            if o["op"] == "write" and o.get("how") == "csv" and rnd.random() < 0.35:
+                o["how"] = "csobj"
         # make sure invalid values are really unmapped
         vals = {repr(value_of(prog, s)) for s in ids}
         sc["ops"] = [o for o in sc["ops"] if not (o["op"] == "write" and o.get("how") != "cs"
